@@ -65,7 +65,7 @@ func (l Lease) FastLog(line *fastlog.Line) *fastlog.Line {
 
 func (h *Handler) findByIP(ip netip.Addr) *Lease {
 	for _, v := range h.table {
-		if v.Addr.IP == ip {
+		if v.Addr.IP == ip && v.State != StateFree { // a freed lease keeps its last address: it must not hide the current holder
 			return v
 		}
 	}
